@@ -136,7 +136,7 @@ fn main() {
         Some("cons") => {
             // C11 sweep: every line is {"sd","ed","dv":[[d, verdict]...]} emitted by MC_ConsAll; the constructor is called at every d
             // through several (std offset, dst offset, end time) splits; start time = d + std - dst + end (input assembly, no verdict here)
-            let splits: [(i64, i64, i64); 6] = [(0, 0, 0), (0, 3600, 7200), (-89999, 93599, 0), (93599, -89999, 604799), (3600, 0, -604799), (-18000, -14400, 90000)];
+            let splits: [(i64, i64, i64); 8] = [(0, 0, 0), (0, 3600, 7200), (-89999, 93599, 0), (93599, -89999, 604799), (3600, 0, -604799), (-18000, -14400, 90000), (-89999, 93599, -604799), (0, 0, 604799)];
             let inp = BufReader::new(std::fs::File::open(&args[2]).expect("cannot open input"));
             let mut out = BufWriter::new(std::fs::File::create(&args[3]).expect("cannot create output"));
             let (mut pairs, mut calls, mut mism) = (0u64, 0u64, 0u64);
